@@ -25,6 +25,11 @@ CHECKS = {
                 text='Every vector kind (dense, blocked, tuple, power), size and aliasing pattern in the bound is executed symbolically; z3 decides over all real values that each result component equals the element-wise definition on the flattened data; min/max via inequalities + attainment for every ordering.',
                 note='Trusted: SymReal instantiation, DAG printer, z3 5.1.0. Real arithmetic (no rounding, no overflow); min/max only on non-empty vectors; sqrt as algebraic unknown. Outside: sparse vectors, lengths beyond the bound.',
                 ref='3/C04'),
+    'C05': dict(cat='model_checking', engine='E3',
+                technique='own IR symbolic executor on the real Container::_serialize/_deserialize and CheckpointControl collect/load/restore code with every stored value and index an arbitrary symbolic 64-bit pattern (sizes concrete, incl. zero-sized arrays); z3 decides bit-identity of everything read back; executor checks the offset arithmetic for bounds',
+                text='Partial (stated): BINARY modes only. For DenseVector, DenseVectorBlocked<2>, SparseVector, CSR, CSCR, BCSR<2,2>, DenseMatrix of sizes 0..4 (length 0, entry-free, arbitrary row pointers) serialize -> deserialize returns identical sizes, scalars, values (bit-identical) and index arrays, with 64-bit and with 32-bit index type in the stream (indices < 2^32). Checkpoints with up to three objects and identifier lengths 1..30 are restored to the right object in a different order, directly and through the BinaryStream image read by the real load(BinaryStream&).',
+                note='Trusted: clang-14 IR, irsym executor (validated against an ASan native build each run), z3 5.1.0. One defect found and fixed (serialising / shallow-copying any container with a zero-sized array aborted). NOT covered: MatrixMarket / exponent text modes (libstdc++ stream formatting and parsing is not in the IR) - the seeded change in the DenseMatrix mtx reader is NOT detected, and the MatrixMarket empty-row defect mentioned in the property text is not examined; float<->double stream conversion, compression, DistFileIO, Banded.',
+                ref='3/C05'),
     'C06': dict(cat='other', engine='E2',
                 technique='bounded symbolic execution of the real filter classes over a symbolic real scalar; z3 (NRA) decides constraint, complement-untouched and idempotence identities',
                 text='Every index-set configuration (insertion orders included) in the bound is executed symbolically on the real UnitFilter/UnitFilterBlocked/SlipFilter/MeanFilter/FilterChain/FilterSequence/TupleFilter classes; z3 decides over all real vectors, prescribed values, normals and weights that constraints hold exactly, unconstrained entries are unchanged, second application is the identity, filtered matrix rows are unit rows.',
